@@ -75,6 +75,15 @@ class ValidatorError(Exception):
         return hash(self.args)
 
 
+class Veto(BaseException):
+    """Raised by a generated validator whose valuation is VETO: an application-defined exception
+    that is deliberately not an `Exception` (control-flow style).  It aborts the event like any
+    other exception a validator raises."""
+
+
+VETO = ("veto",)
+
+
 class Holder:
     env = None
 
@@ -293,6 +302,9 @@ class Env:
             self.begin(rec)
             ok = self.vals.get((prov, name), self.vals.get(name, True))
             rec.value = ok
+            if ok is VETO:
+                self.end(rec)
+                raise Veto(name)
             if not ok:
                 self.end(rec)
                 raise ValidatorError(name)
@@ -372,6 +384,9 @@ class Env:
             rec.value = ok
             for i in range(points):
                 await self.point((prov, name, rec.n, i))
+            if ok is VETO:
+                self.end(rec)
+                raise Veto(name)
             if not ok:
                 self.end(rec)
                 raise ValidatorError(name)
